@@ -121,6 +121,8 @@ def readbackMonitors (s : St) (impl : String) : List Fail := Id.run do
         if p != "none" then
           let pKV := parseKV (words p)
           for (k, v) in wf do
+            -- (the in-tree server raises a received max_idle_timeout to MinRemoteIdleTimeout)
+            let v := if k == "mit" then max v (Protocol.MinRemoteIdleTimeout / 1000000) else v
             if lookup pKV k != some v then
               fails := fails ++ [("record_equals_bytes", "-", s!"{k}: marshalled {v} but the peer received {lookup pKV k}")]
           if (wireISCID tlvs).isSome && (fieldOf p "iscid").getD "" != iscidRec then
